@@ -418,9 +418,15 @@ def g_ts_cfg(rng, start, only_past=False):
             a = start + _dt.timedelta(seconds=rng.choice([-7200, -60, 30, 600, 3600, 40000, 90000]),
                                       microseconds=rng.choice([0, 0, 0, 250000, 1]))
             a = a.replace(second=a.second if rng.random() < 0.5 else 0)
-            if POOL and rng.random() < 0.4:
+            if POOL and rng.random() < 0.6:
                 h, m, sec, us = rng.choice(POOL)
                 a = a.replace(hour=h, minute=m, second=sec, microsecond=us)
+                if rng.random() < 0.5:
+                    # start and stop at the same time of day (whole days long)
+                    b = a + _dt.timedelta(days=rng.choice([1, 2]))
+                    ranges.append([[a.year, a.month, a.day, a.hour, a.minute, a.second, a.microsecond],
+                                   [b.year, b.month, b.day, b.hour, b.minute, b.second, b.microsecond]])
+                    continue
             b = a + _dt.timedelta(seconds=rng.choice([45, 900, 3600, 30000, 100000, 200000,
                                                       86400, 172800]))
         ranges.append([[a.year, a.month, a.day, a.hour, a.minute, a.second, a.microsecond],
@@ -540,6 +546,24 @@ def random_case(rng, quick):
                 ops.append([tj, 'jump', (bnd - w_old) + 1e-3 - delta])
                 case['lat'] = 0.0
                 case['aim'] = 'reset'
+    if rng.random() < 0.1 and not any(o[1] == 'jump' for o in ops) and days >= 0.6:
+        # a forward jump, and - after the settling hour - a reconfiguration that introduces a
+        # boundary only 20 s .. 5 min ahead (the scheduler must be woken up by the reload)
+        jump = rng.choice([600.0, 1800.0, 3600.0])
+        tj = rng.uniform(30.0, 3000.0)
+        i = rng.randrange(nblocks)
+        blk = blocks[i]
+        if blk['kind'] == 'td':
+            tr = tj + jump + rng.uniform(3700.0, 9000.0)
+            ahead = rng.choice([20.0, 45.0, 120.0, 300.0])
+            off = 0.0 if blk['utc'] else LOCAL.total_seconds()
+            fdt = start + _dt.timedelta(seconds=tr + ahead + off)
+            fdt = fdt.replace(microsecond=0)
+            end = fdt + _dt.timedelta(seconds=900)
+            new = {'times': [[[fdt.hour, fdt.minute, fdt.second, 0], [end.hour, end.minute, end.second, 0]]]}
+            ops.append([tj, 'jump', jump])
+            ops.append([tr, 'reconfig', i, new, False])
+            case['aim'] = 'jump+reconfig'
     ops.sort(key=lambda o: o[0])
     # one jump per case keeps the settling rule simple
     seen_jump = False
